@@ -1,7 +1,282 @@
-/- C10 — statements under construction -/
+/-
+  C10 — Chromosome, unloc and haplotig names are unique and ranked by size.
+
+  PROVED HERE (each at full strength for the model function named):
+    * `rename_by_size`            [ScaffoldNamer.rename_by_size]   the names of the scaffolds in `ids` are permuted among
+                                   them; the k-th name (in the original hand-out order) goes to the k-th longest, ties in
+                                   hand-out order (stable); nothing else in the store changes.
+    * `haplotig_names`            [label_scaffold / haplotig_name] along ANY sequence of make_scaffold_name / label_scaffold
+                                   calls the Haplotig pieces are named H_(c+1), H_(c+2), … without holes, `c` the counter
+                                   at the start (0 for a fresh namer), and are recorded in `haplotigScaffolds` in that order;
+                                   hence pairwise different (`haplotig_names_nodup`, `unloc_names_nodup`).
+    * `unloc_names`               [label_scaffold / unloc_name]    between two make_scaffold_name calls the Unloc pieces are
+                                   named <current>_unloc_1..m; `make_scaffold_name_resets` restarts the counter.
+    * `chromosome_name_csv`       [chromosome_name_csv]            one line per rank-1/2 scaffold, in order;
+                                   `localised = false` exactly when the Pretext scaffold name was already seen.
+
+  The trace theorems are about the namer operations; that `findAssemblyOverlaps` / `processBait` drive the namer only
+  through these two operations is by inspection of the model, not a theorem here.
+  NOT PROVED (so C10 as a whole is PARTIAL): uniqueness of ALL scaffold names inside each output assembly, the
+  `<prefix>1..n` numbering by `buildGroups` / `nameGroup` / the stable sort of groups in `assembliesFused`, and the
+  autosomes-first `smartSort` order.  The full statement of C10 is in /verif/lean/tasks/C09.md.
+-/
 import AgpTpf.Model.Remap
+import AgpTpf.Proofs.C10
+import AgpTpf.Proofs.C10Csv
+import AgpTpf.Proofs.C10Rename
 namespace AgpTpf.C10
 open AgpTpf
-theorem appendRows_nil (rows : List Row) (g : Option Gap) : Scaffold.appendRows [] rows g = rows := by
-  cases g <;> simp [Scaffold.appendRows]
+
+/-! ## `rename_by_size` -/
+
+def lenOf (st : List Res) (i : Nat) : Int := (st.getD i default).o.length
+def nameOf (st : List Res) (i : Nat) : Str := (st.getD i default).o.name
+
+theorem rename_by_size_nil (store : List Res) : renameBySize store [] = store := rfl
+
+/-- `bs` is `ids` sorted longest first (stable).  After `renameBySize`, the scaffold `bs[k]` carries the name that
+    `ids[k]` had before; all names stay within `ids`; lengths and every other field of every store entry are unchanged. -/
+theorem rename_by_size (store : List Res) (ids : List Nat) (hne : ids ≠ []) (hnd : ids.Nodup)
+    (hlt : ∀ i ∈ ids, i < store.length) :
+    let st' := renameBySize store ids
+    let bs := sortByIntKeyDesc (lenOf store) ids
+    bs.Perm ids ∧
+    bs.Pairwise (fun a b => lenOf store a ≥ lenOf store b) ∧
+    (∀ L : Int, bs.filter (fun i => lenOf store i = L) = ids.filter (fun i => lenOf store i = L)) ∧
+    bs.map (nameOf st') = ids.map (nameOf store) ∧
+    (bs.map (lenOf st')).Pairwise (· ≥ ·) ∧
+    (ids.map (nameOf st')).Perm (ids.map (nameOf store)) ∧
+    st'.length = store.length ∧
+    (∀ j, j ∉ ids → st'.getD j default = store.getD j default) ∧
+    (∀ j, ∃ x, st'.getD j default = withName (store.getD j default) x) ∧
+    (∀ j, lenOf st' j = lenOf store j) := by
+  intro st' bs
+  have hperm : bs.Perm ids := stableSort_perm _ ids
+  have hsorted : bs.Pairwise (fun a b => lenOf store a ≥ lenOf store b) := by
+    have := stableSort_sorted (fun a b : Nat => decide (lenOf store a ≥ lenOf store b))
+      (by intro a b; simp only [decide_eq_true_eq]; omega)
+      (by intro a b c; simp only [decide_eq_true_eq]; omega) ids
+    exact this.imp (fun h => by simpa using h)
+  have hstable : ∀ L : Int, bs.filter (fun i => lenOf store i = L) = ids.filter (fun i => lenOf store i = L) := by
+    intro L
+    exact stableSort_filter _ _ (by intro x y hx hy; simp only [decide_eq_true_eq] at hx hy ⊢; omega) ids
+  have hst' : st' = (bs.zip (ids.map (nameOf store))).foldl setName store := renameBySize_eq store ids hne
+  have hlen : bs.length = (ids.map (nameOf store)).length := by rw [List.length_map]; exact hperm.length_eq
+  have hfst : (bs.zip (ids.map (nameOf store))).map (·.1) = bs := List.map_fst_zip (Nat.le_of_eq hlen)
+  have hbnd : bs.Nodup := hperm.nodup_iff.2 hnd
+  obtain ⟨a1, a2, a3, a4⟩ := assignNames (bs.zip (ids.map (nameOf store))) store (by rw [hfst]; exact hbnd)
+  rw [← hst'] at a1 a2 a3 a4
+  rw [hfst] at a2
+  have hlenOf : ∀ j, lenOf st' j = lenOf store j := by
+    intro j; obtain ⟨x, hx⟩ := a4 j; unfold lenOf; rw [hx]; rfl
+  have hnames : bs.map (nameOf st') = ids.map (nameOf store) := by
+    apply map_eq_of_zip _ _ _ hlen
+    intro p hp
+    have hp1 : p.1 ∈ ids := hperm.mem_iff.1 ((List.of_mem_zip hp).1)
+    unfold nameOf
+    rw [a3 p hp (hlt p.1 hp1)]; rfl
+  refine ⟨hperm, hsorted, hstable, hnames, ?_, ?_, a1, ?_, a4, hlenOf⟩
+  · rw [List.pairwise_map]
+    exact hsorted.imp (fun h => by rw [hlenOf, hlenOf]; exact h)
+  · rw [← hnames]; exact (hperm.map _).symm
+  · intro j hj; exact a2 j (fun h => hj (hperm.mem_iff.1 h))
+
+/-! ## haplotig and unloc names -/
+
+/-- **Haplotig names are H_(c+1) … H_(c+m) without holes**, whatever sequence of `make_scaffold_name` and
+    `label_scaffold` calls is run (`outs` lists the `label_scaffold` results in call order; `isHapPiece` = the piece is
+    tagged Haplotig and not FalseDuplicate, i.e. takes the `haplotig_name()` branch). -/
+theorem haplotig_names (evs : List Ev) (n n' : Namer) (outs : List (Nat × Fragment × OverlapResult))
+    (h : runEvs n evs = .ok (n', outs)) :
+    let hs := outs.filter (fun p => isHapPiece p.2.1)
+    hs.map (·.2.2.name) = (List.range' (n.haplotigN + 1) hs.length).map hapName ∧
+    n'.haplotigN = n.haplotigN + hs.length ∧
+    n'.haplotigScaffolds = n.haplotigScaffolds ++ hs.map (·.1) :=
+  runEvs_haplotig evs n n' outs h
+
+/-- **Unloc names are <current>_unloc_(c+1) … (c+m)** along the `label_scaffold` calls made for one Pretext scaffold. -/
+theorem unloc_names (evs : List Ev) (hl : ∀ ev ∈ evs, ev.isLabel = true) (n n' : Namer)
+    (outs : List (Nat × Fragment × OverlapResult)) (h : runEvs n evs = .ok (n', outs)) :
+    let us := outs.filter (fun p => isUnlocPiece p.2.1)
+    us.map (·.2.2.name) = (List.range' (n.unlocN + 1) us.length).map (unlocName n.currentScaffoldName) ∧
+    n'.unlocN = n.unlocN + us.length ∧
+    n'.unlocScaffolds = n.unlocScaffolds ++ us.map (·.1) ∧
+    n'.currentScaffoldName = n.currentScaffoldName :=
+  runEvs_unloc evs hl n n' outs h
+
+/-- `make_scaffold_name` restarts the unloc counter (so numbering is 1..m per Pretext scaffold) and does not touch the
+    haplotig counter, the haplotig list or the autosome prefix. -/
+theorem make_scaffold_name_resets (n n' : Namer) (scName : Str) (rows : List Row) (tags : List Str)
+    (h : makeScaffoldName n scName rows tags = .ok n') :
+    n'.unlocN = 0 ∧ n'.unlocScaffolds = [] ∧ n'.haplotigN = n.haplotigN ∧
+    n'.haplotigScaffolds = n.haplotigScaffolds ∧ n'.autosomePrefix = n.autosomePrefix := by
+  obtain ⟨⟨a, b, c⟩, d, e⟩ := makeScaffoldName_counters n n' scName rows tags h
+  exact ⟨d, e, a, b, c⟩
+
+/-- every other piece keeps the current scaffold name -/
+theorem plain_piece_name (n n' : Namer) (o o' : OverlapResult) (sid : Nat) (frag : Fragment) (scTags : List Str)
+    (orig : Str) (h : labelScaffold n o sid frag scTags orig = .ok (n', o'))
+    (h1 : isHapPiece frag = false) (h2 : isUnlocPiece frag = false) :
+    o'.name = n.currentScaffoldName.getD sNone :=
+  (label_counters n n' o o' sid frag scTags orig h).2.2.2.2 h1 h2
+
+/-- decimal rendering is injective, hence so are the generated names -/
+theorem natToStr_inj (a b : Nat) (h : natToStr a = natToStr b) : a = b := by
+  have ha := @Nat.ofDigitChars_ten_toDigits a
+  have hb := @Nat.ofDigitChars_ten_toDigits b
+  unfold natToStr at h
+  rw [h] at ha
+  exact ha.symm.trans hb
+
+theorem hapName_inj (a b : Nat) (h : hapName a = hapName b) : a = b := by
+  unfold hapName at h
+  exact natToStr_inj a b (List.append_cancel_left h)
+
+theorem unlocName_inj (cur : Option Str) (a b : Nat) (h : unlocName cur a = unlocName cur b) : a = b := by
+  unfold unlocName at h
+  exact natToStr_inj a b (List.append_cancel_left h)
+
+/-- **Haplotig names are pairwise different** (before and — by `rename_by_size`, a permutation — after renaming). -/
+theorem haplotig_names_nodup (evs : List Ev) (n n' : Namer) (outs : List (Nat × Fragment × OverlapResult))
+    (h : runEvs n evs = .ok (n', outs)) :
+    ((outs.filter (fun p => isHapPiece p.2.1)).map (·.2.2.name)).Nodup := by
+  rw [(haplotig_names evs n n' outs h).1]
+  exact List.Pairwise.map hapName (fun a b hne hab => hne (hapName_inj a b hab)) List.nodup_range'
+
+/-- **Unloc names of one Pretext scaffold are pairwise different.** -/
+theorem unloc_names_nodup (evs : List Ev) (hl : ∀ ev ∈ evs, ev.isLabel = true) (n n' : Namer)
+    (outs : List (Nat × Fragment × OverlapResult)) (h : runEvs n evs = .ok (n', outs)) :
+    ((outs.filter (fun p => isUnlocPiece p.2.1)).map (·.2.2.name)).Nodup := by
+  rw [(unloc_names evs hl n n' outs h).1]
+  exact List.Pairwise.map _ (fun a b hne hab => hne (unlocName_inj _ a b hab)) List.nodup_range'
+
+/-! ## `chromosome_name_csv` -/
+
+theorem csvSpec_length (prefix_ : Str) : ∀ (l earlier : List Scaffold),
+    (csvSpec prefix_ earlier l).length = l.length ∧ (csvSpec prefix_ earlier l).map (·.1) = l.map (·.name) := by
+  intro l
+  induction l with
+  | nil => intro _; exact ⟨rfl, rfl⟩
+  | cons s r ih =>
+    intro earlier
+    obtain ⟨h1, h2⟩ := ih (earlier ++ [s])
+    refine ⟨by simp [csvSpec, h1], ?_⟩
+    simp only [csvSpec, List.map_cons, h2]
+    congr 1
+    unfold csvLine; split <;> rfl
+
+theorem csvSpec_append (prefix_ : Str) : ∀ (pre earlier : List Scaffold) (s : Scaffold) (post : List Scaffold),
+    csvSpec prefix_ earlier (pre ++ s :: post) =
+      csvSpec prefix_ earlier pre ++ csvLine prefix_ (earlier ++ pre) s :: csvSpec prefix_ (earlier ++ pre ++ [s]) post := by
+  intro pre
+  induction pre with
+  | nil => intro earlier s post; simp [csvSpec]
+  | cons a r ih =>
+    intro earlier s post
+    simp only [List.cons_append, csvSpec]
+    rw [ih (earlier ++ [a]) s post]
+    simp [List.append_assoc]
+
+theorem csvLine_localised (prefix_ : Str) (earlier : List Scaffold) (s : Scaffold) :
+    ((csvLine prefix_ earlier s).2.2 = false ↔
+      (truthy s.originalName = true ∧ ∃ e ∈ earlier, e.originalName = s.originalName)) ∧
+    ((csvLine prefix_ earlier s).2.2 = true → (csvLine prefix_ earlier s).2.1 = replaceFirst prefix_ [] s.name) := by
+  unfold csvLine earlierSame
+  by_cases ht : truthy s.originalName = true
+  · simp only [if_pos ht]
+    cases hf : earlier.find? (fun e => e.originalName = s.originalName) with
+    | some e =>
+      have hm := List.mem_of_find?_eq_some hf
+      have he := List.find?_some hf
+      simp only [decide_eq_true_eq] at he
+      exact ⟨⟨fun _ => ⟨ht, e, hm, he⟩, fun _ => rfl⟩, fun h => (by cases h)⟩
+    | none =>
+      refine ⟨⟨fun h => (by cases h), ?_⟩, fun _ => rfl⟩
+      rintro ⟨_, e, hm, he⟩
+      have := List.find?_eq_none.1 hf e hm
+      simp [he] at this
+  · simp only [if_neg ht]
+    exact ⟨⟨fun h => (by cases h), fun h => absurd h.1 ht⟩, fun _ => trivial⟩
+
+/-- **The chromosome-list CSV.**  With `rs` the rank-1/2 scaffolds of the assembly in order:
+    one line per element of `rs`, first column its name; the line of `s` (preceded by `pre` in `rs`) is
+    `csvLine prefix pre s`, whose `localised` flag is `false` exactly when `s` has a (truthy) Pretext-scaffold name that
+    an earlier rank-1/2 scaffold also has — and then the chromosome name is that of the FIRST such scaffold — and
+    otherwise the chromosome name is the scaffold's own name with the first occurrence of the prefix removed. -/
+theorem chromosome_name_csv (prefix_ : Str) (scs : List Scaffold) :
+    let rs := scs.filter isChrRank
+    let csv := chromosomeNameCsv prefix_ scs
+    csv.length = rs.length ∧ csv.map (·.1) = rs.map (·.name) ∧
+    ∀ pre s post, rs = pre ++ s :: post →
+      csv[pre.length]? = some (csvLine prefix_ pre s) ∧
+      ((csvLine prefix_ pre s).2.2 = false ↔
+        (truthy s.originalName = true ∧ ∃ e ∈ pre, e.originalName = s.originalName)) ∧
+      ((csvLine prefix_ pre s).2.2 = true → (csvLine prefix_ pre s).2.1 = replaceFirst prefix_ [] s.name) ∧
+      ((csvLine prefix_ pre s).2.2 = false →
+        ∃ e, pre.find? (fun e => e.originalName = s.originalName) = some e ∧
+          (csvLine prefix_ pre s).2.1 = replaceFirst prefix_ [] e.name) := by
+  intro rs csv
+  have hcsv : csv = csvSpec prefix_ [] rs := chromosomeNameCsv_spec prefix_ scs
+  obtain ⟨h1, h2⟩ := csvSpec_length prefix_ rs []
+  refine ⟨by rw [hcsv, h1], by rw [hcsv, h2], ?_⟩
+  intro pre s post hrs
+  obtain ⟨l1, l2⟩ := csvLine_localised prefix_ pre s
+  refine ⟨?_, l1, l2, ?_⟩
+  · rw [hcsv, hrs, csvSpec_append, List.nil_append]
+    have hl : (csvSpec prefix_ [] pre).length = pre.length := (csvSpec_length prefix_ pre []).1
+    rw [List.getElem?_append_right (by omega), hl, Nat.sub_self]
+    rfl
+  · intro hfalse
+    unfold csvLine at hfalse ⊢
+    unfold earlierSame at hfalse ⊢
+    by_cases ht : truthy s.originalName = true
+    · simp only [if_pos ht] at hfalse ⊢
+      cases hf : pre.find? (fun e => e.originalName = s.originalName) with
+      | some e => exact ⟨e, rfl, rfl⟩
+      | none => rw [hf] at hfalse; cases hfalse
+    · simp only [if_neg ht] at hfalse; cases hfalse
+
+/-! ### non-vacuity -/
+
+def mkRes (nm : Str) (start stop : Int) : Res :=
+  { o := { bait := { name := ['c'], start := start, stop := stop, strand := 1 }, start := start, stop := stop,
+           rows := [], name := nm }, added := true }
+
+/-- three haplotigs of lengths 10, 30, 30 named H_1, H_2, H_3: afterwards H_1, H_2 are the two long ones (in their
+    original order) and H_3 is the short one; the entry outside `ids` is untouched -/
+example :
+    (renameBySize [mkRes ['H','_','1'] 1 10, mkRes ['x'] 1 99, mkRes ['H','_','2'] 1 30, mkRes ['H','_','3'] 101 130]
+        [0, 2, 3]).map (fun r => (r.o.name, r.o.length)) =
+      [(['H','_','3'], 10), (['x'], 99), (['H','_','1'], 30), (['H','_','2'], 30)] := by decide
+
+example : [0, 2, 3] ≠ [] ∧ [0, 2, 3].Nodup ∧ ∀ i ∈ [0, 2, 3], i < 4 := by decide
+
+def hapFrag : Fragment := { name := ['c'], start := 1, stop := 9, strand := 1, tags := [sHaplotig] }
+def unlocFrag : Fragment := { name := ['c'], start := 1, stop := 9, strand := 1, tags := [sUnloc] }
+def plainFrag : Fragment := { name := ['c'], start := 1, stop := 9, strand := 1, tags := [sPainted] }
+def someO : OverlapResult := { bait := plainFrag, start := 1, stop := 9, rows := [] }
+def n0 : Namer := { autosomePrefix := ['S','U','P','E','R','_'] }
+def ctg : Row := .frag { name := ['c','t','g','1'], start := 1, stop := 100, strand := 1 }
+
+/-- a trace with two Pretext scaffolds, haplotigs in both and unlocs in the first: names as stated -/
+example :
+    (runEvs n0
+      [.name ['S','1'] [ctg] [sPainted], .label someO 0 hapFrag [sPainted] ['S','1'],
+       .label someO 1 unlocFrag [sPainted] ['S','1'], .label someO 2 plainFrag [sPainted] ['S','1'],
+       .label someO 3 unlocFrag [sPainted] ['S','1'],
+       .name ['S','2'] [ctg] [sPainted], .label someO 4 hapFrag [sPainted] ['S','2']]).toOption.map
+      (fun p => (p.1.haplotigN, p.1.haplotigScaffolds, p.2.map (·.2.2.name))) =
+    some (2, [0, 4], [['H','_','1'], "S1_unloc_1".toList, ['S','1'], "S1_unloc_2".toList, ['H','_','2']]) := by decide
+
+/-- CSV: chromosome, its unloc (same Pretext scaffold → `localised = false`, chromosome name of the chromosome),
+    an unplaced scaffold (no line), a second chromosome -/
+example :
+    chromosomeNameCsv ['S','_']
+      [{ name := "S_1".toList, rank := 1, originalName := some ['A'] },
+       { name := "S_1_unloc_1".toList, rank := 1, originalName := some ['A'] },
+       { name := "scaffold_9".toList, rank := 3, originalName := some ['B'] },
+       { name := "S_X".toList, rank := 2, originalName := some ['C'] }] =
+      [("S_1".toList, "1".toList, true), ("S_1_unloc_1".toList, "1".toList, false), ("S_X".toList, "X".toList, true)] := by
+  decide
+
 end AgpTpf.C10
